@@ -53,7 +53,7 @@ pub struct Device {
 
 use DisabledOptions::*;
 
-use crate::instruction::operation::Operation;
+use crate::instruction::{operation::Operation, register::Reg16, IndexOps, InstructionOps};
 
 impl Device {
     pub fn new(flash_size: u32) -> Self {
@@ -103,6 +103,30 @@ impl Device {
                 } else {
                     false
                 }
+            }
+            _ => true,
+        }
+    }
+
+    /// Checks the addressing form for the options that take away only some forms of an instruction
+    pub fn check_operands(&self, op: &Operation, args: &[InstructionOps]) -> bool {
+        match op {
+            Operation::Lpm => args.is_empty() || self.allow(NoLpmX),
+            Operation::Elpm => args.is_empty() || self.allow(NoElpmX),
+            Operation::Ld | Operation::St | Operation::Ldd | Operation::Std => {
+                args.iter().all(|arg| match arg {
+                    InstructionOps::Index(
+                        IndexOps::None(reg)
+                        | IndexOps::PostIncrement(reg)
+                        | IndexOps::PreDecrement(reg)
+                        | IndexOps::PostIncrementE(reg, _),
+                    ) => match reg {
+                        Reg16::X => self.allow(NoXreg),
+                        Reg16::Y => self.allow(NoYreg),
+                        Reg16::Z => true,
+                    },
+                    _ => true,
+                })
             }
             _ => true,
         }
